@@ -297,6 +297,11 @@ class ExternMixin:
                  # X-NP10: np.asarray(a) of an array IS that array (no copy) - whatever is done to the result in place is done to `a`
                  'np.asarray': lambda self, args, kw, node: args[0] if (args[0].k == 'opq' and not kw) else self.ext_np_array(args, kw, node),
                  'np.zeros': lambda self, args, kw, node: self.ext_np_zeros(args, kw, node),
+                 # X-NPSTEP (pyvc/npstats.py): consecutive differences of an index array and their statistics
+                 'np.diff': lambda self, args, kw, node: self.np_diff(args, kw, node),
+                 'np.unique': lambda self, args, kw, node: self.np_unique(args, kw, node),
+                 'np.median': lambda self, args, kw, node: self.np_central('median', args, kw, node),
+                 'np.mean': lambda self, args, kw, node: self.np_central('mean', args, kw, node),
                  'np.dtype': lambda self, args, kw, node: self.ext_np_dtype(args, kw, node)}
 
     def ext_np_array(self, args, kw, node):
